@@ -478,7 +478,7 @@ var summaryIo = map[string]Summary{
 	},
 	// func CopyBuffer(dst Writer, src Reader, buf []byte) (written int64, err error)
 	"io.CopyBuffer": {
-		[][]int{{0}, {1, 2}, {0, 2}},
+		[][]int{{0}, {0, 1, 2}, {0, 2}},
 		[][]int{{0}, {0}, {0}},
 	},
 	// func CopyN(dst Writer, src Reader, n int64) (written int64, err error)
